@@ -523,3 +523,132 @@ Proof.
   intros a n argv p Hs Hh Hk Hp H. rewrite (sys_history_same a n [] (or_introl eq_refl) argv H).
   apply system_known_hosts_effective; assumption.
 Qed.
+
+(* ---------- the known_hosts file over time: a memo of an earlier read ---------- *)
+(* a memo is sound when what it holds is what the content it was read from gives *)
+Definition memo_sound (lookup_text : bytes -> option bytes) (m : kmemo) : Prop :=
+  match m with None => True | Some (v0, e0) => e0 = lookup_text (v_text v0) end.
+
+(* the events of every open are those of the entry that the content AT THAT OPEN gives *)
+Definition memo_spec (lookup_text : bytes -> option bytes) (l : lib) (h : list (khver * scen)) : list (scen * list event) :=
+  map (fun x => (with_entry (snd x) (lookup_text (v_text (fst x))),
+                 open_trace true l (with_entry (snd x) (lookup_text (v_text (fst x)))))) h.
+
+Lemma memo_lookup_sound : forall lookup_text reuse,
+  (forall a b, reuse a b = true -> v_text a = v_text b) ->
+  forall m v, memo_sound lookup_text m ->
+    fst (memo_lookup lookup_text reuse m v) = lookup_text (v_text v) /\
+    memo_sound lookup_text (snd (memo_lookup lookup_text reuse m v)).
+Proof.
+  intros lookup_text reuse Hk m v Hm. unfold memo_lookup.
+  destruct m as [[v0 e0]|]; [|split; reflexivity].
+  destruct (reuse v0 v) eqn:Hr; [|split; reflexivity].
+  cbn [fst snd]. cbn [memo_sound] in Hm. split; [|exact Hm].
+  rewrite Hm, (Hk _ _ Hr). reflexivity.
+Qed.
+
+(* transparency: a memo that is reused only for the same CONTENT cannot be told from reading the file
+   at every open — from any sound memo state, for every history of versions and scenarios *)
+Theorem memo_transparent : forall lookup_text reuse,
+  (forall a b, reuse a b = true -> v_text a = v_text b) ->
+  forall l h m, memo_sound lookup_text m ->
+    run_memo lookup_text reuse l m h = memo_spec lookup_text l h.
+Proof.
+  intros lookup_text reuse Hk l. induction h as [|[v s] h IH]; intros m Hm; [reflexivity|].
+  cbn [run_memo memo_spec map fst snd].
+  destruct (memo_lookup_sound lookup_text reuse Hk m v Hm) as [H1 H2].
+  rewrite H1. f_equal. apply IH. exact H2.
+Qed.
+
+Lemma reuse_never_content : forall a b, reuse_never a b = true -> v_text a = v_text b.
+Proof. intros a b H. discriminate H. Qed.
+
+Lemma reuse_same_text_content : forall a b, reuse_same_text a b = true -> v_text a = v_text b.
+Proof. intros a b H. apply hk_beq_eq. exact H. Qed.
+
+(* hence the per-open guarantee with the content of that open deciding *)
+Theorem memo_history_protects : forall lookup_text reuse,
+  (forall a b, reuse a b = true -> v_text a = v_text b) ->
+  forall l h m s tr, memo_sound lookup_text m ->
+    In (s, tr) (run_memo lookup_text reuse l m h) ->
+    strict s = true -> key_bad s = true -> (l = Asyncssh -> agrees s) ->
+    no_offer tr = true /\ (handshake_ok s = true -> ends_with AuthenticationFailed tr = true).
+Proof.
+  intros lookup_text reuse Hk l h m s tr Hm Hin Hs Hb Ha.
+  rewrite (memo_transparent lookup_text reuse Hk l h m Hm) in Hin. unfold memo_spec in Hin.
+  apply in_map_iff in Hin. destruct Hin as [[v s0] [E _]]. cbn [fst snd] in E. inversion E; subst.
+  apply no_offer_before_verify; assumption.
+Qed.
+
+(* the full statement for a reader with reuse test [reuse], starting with no memo *)
+Definition memo_full (reuse : khver -> khver -> bool) : Prop :=
+  forall lookup_text l h s tr,
+    In (s, tr) (run_memo lookup_text reuse l None h) ->
+    strict s = true -> key_bad s = true -> libv s <> Trusted -> no_offer tr = true.
+
+Theorem memo_full_never : memo_full reuse_never.
+Proof.
+  intros lookup_text l h s tr Hin Hs Hb Hv.
+  eapply (memo_history_protects lookup_text reuse_never reuse_never_content l h None s tr I Hin Hs Hb).
+  intros _ k _ Ht. contradiction.
+Qed.
+
+Theorem memo_full_same_text : memo_full reuse_same_text.
+Proof.
+  intros lookup_text l h s tr Hin Hs Hb Hv.
+  eapply (memo_history_protects lookup_text reuse_same_text reuse_same_text_content l h None s tr I Hin Hs Hb).
+  intros _ k _ Ht. contradiction.
+Qed.
+
+(* refuted when the memo is revalidated by the modification time (and the size): the entry is
+   replaced by a key of the same length while the time stays; the server still presents the old key *)
+Definition memo_rest : scen := mkS true None [65;65;65;65] Untrusted true false true true false true false.
+Definition memo_edit : list (khver * scen) := [(mkV 7 [65;65;65;65], memo_rest); (mkV 7 [66;66;66;66], memo_rest)].
+
+Theorem memo_same_stamp_refuted : ~ memo_full reuse_same_stamp /\ ~ memo_full reuse_same_stamp_size.
+Proof.
+  split; intro H;
+    specialize (H (fun t => Some t) Paramiko memo_edit (with_entry memo_rest (Some [66;66;66;66]))
+                  [KeyExchange; CheckPresent; CheckValue; Offer Password; Opened]);
+    assert (X : no_offer [KeyExchange; CheckPresent; CheckValue; Offer Password; Opened] = true)
+      by (apply H; [right; left; reflexivity|reflexivity|reflexivity|discriminate]);
+    discriminate X.
+Qed.
+
+(* the same edit read at every open / under a content test: the second open stops at the value check *)
+Example memo_edit_as_written :
+  map snd (run_memo (fun t => Some t) reuse_never Paramiko None memo_edit) =
+  [[KeyExchange; CheckPresent; CheckValue; Offer Password; Opened];
+   [KeyExchange; CheckPresent; CheckValue; Fail AuthenticationFailed]] /\
+  map snd (run_memo (fun t => Some t) reuse_same_text Paramiko None memo_edit) =
+  map snd (run_memo (fun t => Some t) reuse_never Paramiko None memo_edit) /\
+  map snd (run_memo (fun t => Some t) reuse_same_stamp Paramiko None memo_edit) =
+  [[KeyExchange; CheckPresent; CheckValue; Offer Password; Opened];
+   [KeyExchange; CheckPresent; CheckValue; Offer Password; Opened]].
+Proof. repeat split; reflexivity. Qed.
+
+(* ---------- asyncssh without the hypothesis on its matcher ---------- *)
+(* the statement for the asyncssh transport with NO assumption on what asyncssh trusts is false: asyncssh
+   matches entries by the dialled name OR the peer address, so with another key under the name and the
+   server's key under the address it reports Trusted, authenticates inside connect(), and scrapli's
+   comparison with the name's entry comes afterwards (listed finding c10-asyncssh-peer-address-entry).
+   The strongest true statement is no_offer_before_verify_async, whose extra hypothesis [agrees] is
+   exactly the negation of that region. *)
+Definition async_unconditional_full : Prop :=
+  forall s, strict s = true -> key_bad s = true -> no_offer (open_trace true Asyncssh s) = true.
+
+Definition peer_address_witness : scen :=
+  mkS true (Some [66;66;66;66]) [65;65;65;65] Trusted true false true true false true false.
+
+Theorem async_unconditional_refuted : ~ async_unconditional_full.
+Proof.
+  intro H. specialize (H peer_address_witness eq_refl eq_refl). discriminate H.
+Qed.
+
+Example peer_address_witness_trace :
+  open_trace true Asyncssh peer_address_witness =
+  [CheckPresent; KeyExchange; LibVerify; Offer Password; CheckPresent; CheckValue; Fail AuthenticationFailed] /\
+  ~ agrees peer_address_witness.
+Proof.
+  split; [reflexivity|]. intro H. specialize (H [66;66;66;66] eq_refl eq_refl). discriminate H.
+Qed.
